@@ -5,6 +5,7 @@ import (
 	"fmt"
 	"os"
 	"path/filepath"
+	"regexp"
 	"strings"
 
 	"verif/mon/internal/ev"
@@ -210,6 +211,7 @@ func runC03Corpus(c *Ctx, phase string) {
 		c.Floor("valid_term_pairs", 20000)
 		c.Floor("valid_trees", 1000)
 		c.Floor("long_allowed_lists", 1000)
+		c.Floor("dictionary_pairs", 500)
 	}
 	// (1) mutations of valid expressions
 	nValid := c.Pick(400, 6000)
@@ -414,6 +416,38 @@ func runC03Corpus(c *Ctx, phase string) {
 			c.Max("longest_allowed_list", int64(n))
 		}
 	}
+	// (7) a dictionary taken from the string literals of the library's own source: keywords, prefixes and suffixes the code
+	// compares against are the vocabulary of its grammar, including vocabulary the harness does not know about
+	if c.Shard == 2%c.NShards {
+		lits := sourceLiterals()
+		c.Count("source_literals", int64(len(lits)))
+		for _, lit := range lits {
+			var forms []string
+			switch {
+			case strings.HasSuffix(lit, "-") && len(lit) > 2: // prefix-like: LicenseRef-, DocumentRef-, ...
+				for _, nm := range []string{"x", "X", "a.b-1"} {
+					forms = append(forms, lit+nm, "DocumentRef-d:"+lit+nm, lit+"d:"+lit+nm, "MIT WITH "+lit+nm, "MIT WITH DocumentRef-d:"+lit+nm,
+						"("+lit+nm+")", lit+nm+"+", lit+nm+" WITH Classpath-exception-2.0", "MIT OR "+lit+nm, lit+nm+" AND DocumentRef-d:"+lit+nm)
+				}
+				forms = append(forms, lit, "MIT WITH "+lit, "DocumentRef-d:"+lit, lit+":"+lit)
+			case strings.HasPrefix(lit, "-"): // suffix-like: -only, -or-later, ...
+				forms = append(forms, "MIT"+lit, "GPL-2.0"+lit, "GPL-2.0"+lit+lit, "MIT"+lit+"+", "Classpath-exception-2.0"+lit, "MIT WITH Classpath-exception-2.0"+lit, "LicenseRef-x"+lit, lit, "FOO"+lit)
+			default: // operator-like or other words
+				forms = append(forms, lit, "MIT "+lit+" ISC", "MIT "+lit, lit+" MIT", "MIT"+lit+"ISC", "(MIT "+lit+" ISC)", "MIT "+lit+" "+lit+" ISC", "MIT "+strings.ToLower(lit)+" ISC", "MIT WITH "+lit)
+			}
+			for _, f := range forms {
+				c.hostileCalls(f, "")
+			}
+			for _, f1 := range forms {
+				for _, f2 := range forms {
+					if res := c.Sat(f1, []string{f2}); res.Panic != "" {
+						c.Violation(panicKey("Satisfies", res.Panic), "C03.panic", CallCase{Fn: "Satisfies", Expr: ev.QS(f1), List: []ev.QS{ev.QS(f2)}}, "Satisfies(%q,[%q]) panicked: %s", f1, f2, res.Panic)
+					}
+					c.Inc("dictionary_pairs")
+				}
+			}
+		}
+	}
 	// (4) slices
 	if c.Shard == 0 {
 		big := make([]string, 10000)
@@ -448,6 +482,33 @@ func runC03Corpus(c *Ctx, phase string) {
 			c.Inc("slice_cases")
 		}
 	}
+}
+
+// sourceLiterals returns short string literals found in the non-test Go files of the library under check.
+func sourceLiterals() []string {
+	dir := filepath.Join(repoPath(), "spdxexp")
+	files, _ := filepath.Glob(filepath.Join(dir, "*.go"))
+	seen := map[string]bool{}
+	var out []string
+	re := regexp.MustCompile("\"([A-Za-z:+()-][A-Za-z0-9:+() -]{0,22})\"")
+	for _, f := range files {
+		if strings.HasSuffix(f, "_test.go") {
+			continue
+		}
+		b, err := os.ReadFile(f)
+		if err != nil {
+			continue
+		}
+		for _, m := range re.FindAllStringSubmatch(string(b), -1) {
+			l := m[1]
+			if strings.ContainsAny(l, " ") || seen[l] || len(out) >= 60 {
+				continue
+			}
+			seen[l] = true
+			out = append(out, l)
+		}
+	}
+	return out
 }
 
 // buildExtreme generates one extreme input.
